@@ -7,14 +7,18 @@
 (* must equal the model's state after that action.  Real constants:          *)
 (* LEN = 2, MAC = 16, ROT = 1000.                                            *)
 EXTENDS Transport, Json
+CONSTANT ConnEmptyEOFQuirk   \* TRUE: follow the code where Conn.Read answers a delivered EMPTY message with io.EOF
 VARIABLES l,
-          kmap     \* learned: abstract key (name, epoch) <-> fingerprint of the real 32-byte key
+          kmap,    \* learned: abstract key (name, epoch) <-> fingerprint of the real 32-byte key
+          rbuf,    \* machine -> bytes left in its Conn.readBuf, and the hash of the message they belong to
+          clast    \* observation of the last Conn.Read / Conn.Write: [n, err]
 
 Trace == ndJsonDeserialize("trace.ndjson")
 Last == Trace[l - 1]
-tv == <<vars, l, kmap>>
+tv == <<vars, l, kmap, rbuf, clast>>
+NoBuf == [left |-> 0, h |-> ""]
 
-TInit == Init /\ l = 1 /\ kmap = {}
+TInit == Init /\ l = 1 /\ kmap = {} /\ rbuf = [m \in Machines |-> NoBuf] /\ clast = [n |-> 0, err |-> ""]
 Is(a) == l <= Len(Trace) /\ Trace[l].a = a /\ l' = l + 1
 T == Trace[l]
 
@@ -38,8 +42,60 @@ Reset == /\ Is("Reset")
          /\ used' = {} /\ hw' = [m \in Machines |-> NoCipher] /\ reuse' = FALSE
          /\ nadv' = 0
          /\ last' = Obs("init", "", "")
-         /\ kmap' = {}
+         /\ kmap' = {} /\ rbuf' = [m \in Machines |-> NoBuf] /\ clast' = [n |-> 0, err |-> ""]
 
+-----------------------------------------------------------------------------
+(* brontide.Conn on top of the Machine (conn.go): Write = WriteMessage+Flush *)
+(* per chunk of at most MaxSize bytes (here: onto a writer that never times  *)
+(* out), Read = ReadMessage into readBuf when it is empty, then copy out.    *)
+
+\* the chunks of Conn.Write(b), len(b) = size, appended to the stream P, starting in cipher state c with message id
+RECURSIVE Chunks(_, _, _, _, _, _, _)
+Chunks(d, c, P, id, rest, hseq, v) ==
+  LET s  == Min(rest, MaxSize)
+      c2 == Adv(c)
+      P2 == AppendPiece(AppendPiece(P, Piece(Ct(d, c, id, "h", HDR, s, ""), 0, HDR)),
+                        Piece(Ct(d, c2, id, "b", s + MAC, IF s = LEN THEN v ELSE -1, Head(hseq)), 0, s + MAC))
+  IN IF rest - s = 0 THEN [c |-> Adv(c2), lastc |-> c2, pipe |-> P2, id |-> id, lasts |-> s]
+     ELSE Chunks(d, Adv(c2), P2, id + 1, rest - s, Tail(hseq), v)
+
+CWrite(m, size, hseq, v) ==
+  LET d == DirOf(m) IN
+  /\ hs[m] = "done"
+  /\ IF pend[m] # NoPend THEN
+        /\ clast' = [n |-> 0, err |-> "notflushed"]
+        /\ last' = Obs("CWrite", m, "notflushed")
+        /\ UNCHANGED tvars
+     ELSE
+        LET r == Chunks(d, snd[m], pipe[d], nsent[d] + 1, size, hseq, v) IN
+        /\ snd' = [snd EXCEPT ![m] = r.c]
+        /\ pipe' = IF closed[d] THEN pipe ELSE [pipe EXCEPT ![d] = r.pipe]
+        /\ nsent' = [nsent EXCEPT ![d] = r.id]
+        /\ fl' = [fl EXCEPT ![m] = [size |-> r.lasts, got |-> r.lasts]]
+        /\ reuse' = (reuse \/ (hw[m] # NoCipher /\ ~Less(hw[m], snd[m])))
+        /\ hw' = [hw EXCEPT ![m] = r.lastc]
+        /\ clast' = [n |-> size, err |-> ""]
+        /\ last' = Obs("CWrite", m, "")
+        /\ UNCHANGED <<rcv, pend, closed, lastmsg, dl, rfail, used>>
+  /\ UNCHANGED <<hvars, nadv, rbuf>>
+
+CRead(d, want) ==
+  LET r == Reader(d) IN
+  IF rbuf[r].left > 0 THEN
+     /\ hs[r] = "done"
+     /\ clast' = [n |-> Min(want, rbuf[r].left), err |-> ""]
+     /\ rbuf' = [rbuf EXCEPT ![r].left = @ - Min(want, @)]
+     /\ UNCHANGED vars
+  ELSE
+     LET res == ReadRes(pipe[d], rcv[r]) IN
+     /\ (Read(d) \/ ReadAfterFailure(d))
+     /\ IF res.err # "" THEN clast' = [n |-> 0, err |-> res.err] /\ rbuf' = rbuf
+        ELSE IF res.dsz = 0 /\ want > 0 THEN
+           \* bytes.Buffer.Read on an empty buffer: (0, io.EOF) - the delivered empty message looks like the end of the stream
+           /\ ConnEmptyEOFQuirk /\ PrintT(<<"QUIRK", "conn-read-empty-message-eof", l>>)
+           /\ clast' = [n |-> 0, err |-> "short"] /\ rbuf' = rbuf
+        ELSE /\ clast' = [n |-> Min(want, res.dsz), err |-> ""]
+             /\ rbuf' = [rbuf EXCEPT ![r] = [left |-> res.dsz - Min(want, res.dsz), h |-> res.dh]]
 AdvNames == {"Corrupt", "Truncate", "Drop", "Swap", "Replay", "ReplayOld", "Reflect"}
 
 TNext ==
@@ -57,7 +113,9 @@ TNext ==
         \/ Is("Read") /\ (Read(T.d) \/ ReadAfterFailure(T.d))
         \/ l <= Len(Trace) /\ T.a \in AdvNames /\ l' = l + 1
              /\ DoAdv(T.d, [a |-> T.a, o1 |-> T.o1, o2 |-> T.o2, o3 |-> T.o3])
-     /\ Learn
+     /\ Learn /\ UNCHANGED <<rbuf, clast>>
+  \/ Is("CWrite") /\ CWrite(T.m, T.size, T.hs, T.v) /\ Learn
+  \/ Is("CRead") /\ CRead(T.d, T.k) /\ Learn
   \/ (l = Len(Trace) + 1 /\ UNCHANGED tv)
 TSpec == TInit /\ [][TNext]_tv
 
@@ -65,7 +123,14 @@ Live == l > 1 /\ Last.a # "Reset"
 Done(m) == hs[m] = "done"
 
 \* the error class of the call
-ConformErr == Live => Last.err = last.err
+IsConn == Last.a \in {"CRead", "CWrite"}
+ConformErr == Live => Last.err = IF IsConn THEN clast.err ELSE last.err
+\* Conn.Read / Conn.Write: bytes returned, bytes left in readBuf, and the drained message is the delivered one
+ConformConn == (Live /\ IsConn) => /\ Last.nn = clast.n
+                                   /\ Last.Arb = rbuf["A"].left /\ Last.Brb = rbuf["B"].left
+                                   /\ (Last.a = "CRead" /\ Last.h # "" => Last.h = rbuf[Last.m].h)
+\* ReadMessage returned a payload of the length the model says
+ConformSize == (Live /\ Last.a = "Read" /\ last.err = "") => Last.size = last.dsz
 \* Flush's return value: plaintext bytes written by this call
 ConformFlush == (Live /\ Last.a = "Flush") => Last.nn = last.nn
 \* len(nextHeaderSend), len(nextBodySend) of both machines
